@@ -28,7 +28,7 @@ TRUSTED = [
 ]
 ASSUMPTIONS = ["integer-millisecond clock",
                "a querier is a source sockaddr (address AND port): the two behaviours of the unchanged tree that contradict this reading are reported as known findings "
-               "(D24: identical bytes from another source within 1 s are dropped; D25: a held truncated packet and a plain query from two ports of one address are merged)",
+               "(C11-r2a: identical bytes from another source within 1 s are dropped; C11-r2b: a held truncated packet and a plain query from two ports of one address are merged)",
                "`async_remove_answers` (unregistration while answers are queued) is not in the Reply model: after an unregistration inside a scenario, queue flushes are "
                "compared on the answers that were not withdrawn (additionals not at all); the oracle still demands the remaining answers within 1.2 s",
                "replies of any size: the datagrams of one `async_send` call are taken together at the logical level, judged one by one by the oracle and compared byte for "
@@ -331,6 +331,8 @@ def run_scenario(seed, sc_no, mode=None):
 
     async def main(sim):
         layout = rng.choice(["4", "4", "46", "44", "446", "64"])
+        if mode != "classic" and xr.random() < 0.3:
+            layout = xr.choice(["6", "66", "664"])      # IPv6-only hosts (second review: never generated before)
         host = make_host(sim, layout)
         zc = host.zc
         await zc.async_wait_for_start()
@@ -375,12 +377,16 @@ def run_scenario(seed, sc_no, mode=None):
         # flowinfo / scope id of the link-local peers: fixed per peer for the scenario (the listener keys deferred packets by the
         # address string alone, the model by the whole address part of the sockaddr), and in general not the receiving socket's
         v6peer = {ip: (rng.choice([0, 0, 7]), rng.choice([3, 3, 4, 9, 0])) for ip in ("fe80::9", "fe80::8")}
+        v6peer["2001:db8::9"] = (0, 0)                     # a global address: no scope
+        v6peer["::ffff:10.0.0.9"] = (0, 0)                 # an IPv4-mapped source on an IPv6 socket
 
         def deliver(data, src, **kw):
             box["queries"].append(dict(t=sim.loop.ms, src=src, data=data, **kw))
             rx_tr.protocol.datagram_received(data, src)
 
         def peer(ip4, ip6, port):
+            if rx_v6 and ip6 == "fe80::9" and xr.random() < 0.25:
+                ip6 = xr.choice(["2001:db8::9", "::ffff:10.0.0.9"])
             return ((ip6, port) + v6peer[ip6]) if rx_v6 else (ip4, port)
 
         if mode in ("update", "unregister"):
@@ -1015,7 +1021,8 @@ def run_trace_stream(ctx, res, n, only=None):
         world = world_str(box, tr, kept)
         for b in kept:
             b["phys"] = block_phys(tr, box, b)
-        lines.append("c11net %s %d %s" % (world, len(evs), " ".join(evs)))
+        import zeroconf._handlers.query_handler as _qh
+        lines.append("c11net %s %s %d %s" % (C.b01(hasattr(_qh, "_without_scope_id")), world, len(evs), " ".join(evs)))
         case0 = {"stream": "tr", "seed": seed, "scenario": sc_no, "mode": box["mode"]}
         # which datagrams each reply must be based on, judged from what was delivered (sets b["want"]; verdicts are C12's)
         from . import c12 as _c12
